@@ -189,6 +189,8 @@ impl Output {
 
                 rayon::spawn(move || {
                     verbose_timing_phase!("Create output file");
+                    #[cfg(wild_verif)]
+                    crate::verif::point_noerr("creating-output");
 
                     if output_config.file_write_mode == FileWriteMode::UnlinkAndReplace {
                         // Unlink the old output file so that we can create a new file in its place.
